@@ -200,7 +200,8 @@ def check_model (spec):
         for r, p in zip (rb ['rows'], ps):
             for k, c in enumerate ('xyz'):
                 J.tok ('geometry.' + c, r [c], p.point [k])
-            J.tok ('geometry.r', r ['r'], p.geobj.r_orig)
+            # the row stands in the block of the object that owns the pulse: its radius
+            J.tok ('geometry.r', r ['r'], g.r_orig)
             J.tok ('geometry.no', r ['no'], p.idx + 1, integer = True)
     # ---- sources
     if len (rep ['sources_short']) != len (m.sources) or len (rep ['source_data']) != len (m.sources) \
